@@ -4,7 +4,7 @@
     state of every element after every call.  In the model a call either returns the new state or raises and returns nothing:
     "a rejected call leaves both elements unmodified" is what the correspondence checks of the code. *)
 From Coq Require Import ZArith QArith Reals Lra String List Bool PrimFloat.
-From GP Require Import ArithDef FloatUtil UnitsCore PyUnits RealArith Spec UnitsR QOps QOpsR Relations RelProofs RelR.
+From GP Require Import ArithDef FloatUtil UnitsCore PyUnits RealArith Spec UnitsR QOps QOpsR Relations RelProofs RelR PowertrainObj.
 Import ListNotations.
 
 (** an accepted gear mating: mutual links, master / slave roles, ratio = slave teeth / master teeth, the given efficiency,
@@ -63,6 +63,19 @@ Theorem C10_tan_is_tan : forall (q : qty RA) t s, base_kind (qk q) = KAngularPos
 Proof. exact qtan_si. Qed.
 Theorem C10_worm_efficiency_range : forall c t f : R, (0 < c -> 0 < t -> 0 <= f -> (0 <= (c - f * t) / (c + f / t) <= 1 <-> f * t <= c))%R.
 Proof. exact worm_efficiency_in_range. Qed.
+
+(** non-vacuity (binary64, the example world of PowertrainObj.v): motor = worm -> wheel with friction 0.4 > cos 20deg * tan 10deg: both
+    declarations are accepted, the worm drives the wheel, is flagged self-locking, the wheel's ratio is 40 / 1 *)
+Example C10_nonvacuous :
+  match nth_error ex_world0 1, nth_error ex_world0 2 with
+  | Some (_, lw), Some (_, lh) =>
+      match l_drives lw, l_driven_by lh, l_selflock lw, l_ratio lh with
+      | Some 2%nat, Some 1%nat, Some true, Some r => PrimFloat.eqb r 40
+      | _, _, _, _ => false
+      end
+  | _, _ => false
+  end = true.
+Proof. vm_compute. reflexivity. Qed.
 
 Print Assumptions C10_worm_mating.
 Print Assumptions C10_frame.
